@@ -32,11 +32,43 @@ def rand_name(rng):
 
 def rand_threads(rng, n):
     tids = [rng.choice([1, 2, 3, 7, 0x1234, 2 ** 40 + 1, rng.getrandbits(20)]) for _ in range(max(n, 1))]
-    pids = [rng.choice([0, 1, 7, 44, 300, rng.getrandbits(16)]) for _ in range(max(n, 1))]
+    # incl. the 32-bit boundaries: the pid field is an unsigned 32-bit word
+    pids = [rng.choice([0, 1, 7, 44, 300, rng.getrandbits(16), 2 ** 31 - 1, 2 ** 31, 2 ** 32 - 1, 2 ** 32 - 2, rng.getrandbits(32)]) for _ in range(max(n, 1))]
     return [(rng.choice(tids), rng.choice(pids), rand_name(rng)) for _ in range(n)]
 
 
+_SRC_BYTES = None
+
+
+def source_byte_constants():
+    """every bytes literal of kd_buf_parser.py (dump magics, section and block tags): in-band data may contain them"""
+    global _SRC_BYTES
+    if _SRC_BYTES is None:
+        import ast
+        from ..translate.common import read_module
+        out = {b'\x00\x02\xaa\x55', b'\x00\x03\xaa\x55'}
+        try:
+            tree, _ = read_module('pykdebugparser/kd_buf_parser.py')
+            for n in ast.walk(tree):
+                if isinstance(n, ast.Constant) and isinstance(n.value, bytes) and 2 <= len(n.value) <= 16:
+                    out.add(n.value)
+        except Exception:
+            pass
+        _SRC_BYTES = sorted(out)
+    return _SRC_BYTES
+
+
 def rand_record(rng, i, leading_zero=False):
+    if i >= 1 and not leading_zero and rng.random() < 0.12:
+        # a record whose bytes hold a constant of the container code (a magic, a tag) - at its start (not for the first
+        # record, whose leading zero byte is the known finding F01), in its arguments or in its last word
+        r = bytearray(rand_record(rng, 0))
+        c = rng.choice(source_byte_constants())
+        off = rng.choice([0, 0, 8, 40, 64 - len(c)])
+        r[off:off + len(c)] = c
+        if off == 0 and r[0] == 0 and len(c) < 8:
+            r[len(c):8] = bytes([rng.randrange(1, 256)]) + bytes(7 - len(c))      # e.g. timestamp 0x1_55aa0200
+        return bytes(r)
     ts = rng.choice([rng.getrandbits(48), rng.getrandbits(48), rng.getrandbits(64), 2 ** 56 + rng.getrandbits(8), 2 ** 64 - 1]) | 1 \
         if not leading_zero else (rng.getrandbits(40) << 8)
     if leading_zero and rng.random() < 0.3:
